@@ -774,6 +774,7 @@ func subSweep(out string, seed uint64, tier string, arg string) {
 		rs, pmsg := lintObj(o, g)
 		st.checkC01(o, g, rs, pmsg, "global")
 		st.checkC02(o, rs, pmsg)
+		st.checkAssumptions(o)
 		st.checkC06(o, rs)
 		st.checkC04(o, rs)
 		if rs != nil {
